@@ -67,3 +67,52 @@ class CallGraph:
             out.append(f'{fn.module.relpath if fn else "?"}:{line} {p} -> {cur}')
             cur = p
         return list(reversed(out))
+
+    # ------------------------------------------------------------------ callers
+    def _build_callers(self) -> None:
+        self._callers: dict[str, set[str]] = {}
+        self._escaped: set[str] = set()
+        by_name: dict[str, list[str]] = {}
+        for q, f in self.a.p.functions.items():
+            by_name.setdefault(f.name, []).append(q)
+        for q, f in self.a.p.functions.items():
+            for callee, _line, _k in self.edges(f):
+                self._callers.setdefault(callee, set()).add(q)
+            called = {id(n.func) for n in walk_no_defs(f.node) if isinstance(n, ast.Call)}
+            for n in walk_no_defs(f.node):
+                nm = n.attr if isinstance(n, ast.Attribute) else n.id if isinstance(n, ast.Name) else None
+                if nm in by_name and id(n) not in called and isinstance(getattr(n, 'ctx', None), ast.Load):
+                    # the function is used as a value (stored, passed, returned): it may be called from anywhere
+                    if nm not in f.params and not self.a.resolver._is_local_var(f, nm):
+                        self._escaped.update(by_name[nm])
+        for m in self.a.p.modules.values():
+            for n in m.tree.body:
+                if isinstance(n, (ast.FunctionDef, ast.AsyncFunctionDef, ast.ClassDef)):
+                    continue
+                for x in ast.walk(n):
+                    nm = x.attr if isinstance(x, ast.Attribute) else x.id if isinstance(x, ast.Name) else None
+                    if nm in by_name:
+                        self._escaped.update(by_name[nm])
+
+    def callers(self, q: str) -> tuple[set[str], bool]:
+        """(resolved callers of q, whether q is also used as a value / at module level: unknown callers)"""
+        if not hasattr(self, '_callers'):
+            self._build_callers()
+        return self._callers.get(q, set()), q in self._escaped
+
+    def only_reached_through(self, q: str, allowed, _seen=None) -> bool:
+        """True when q is in `allowed`, or q is a private helper (leading underscore, not used as a value, at least
+        one caller) all of whose callers are, recursively: whatever q does happens only on behalf of an allowed function."""
+        if q in allowed:
+            return True
+        seen = _seen if _seen is not None else set()
+        if q in seen:
+            return True
+        seen.add(q)
+        f = self.a.p.functions.get(q)
+        if f is None or not f.name.startswith('_') or f.name.startswith('__'):
+            return False
+        callers, escaped = self.callers(q)
+        if escaped or not callers:
+            return False
+        return all(self.only_reached_through(c, allowed, seen) for c in callers)
